@@ -68,6 +68,8 @@ type Cfg struct {
 	OpsPerClient                                                      int
 	GroupSplit                                                        int  // percent of partitions that isolate a pair of hosts from all others
 	HoldCut                                                           bool // cut links hold their frames until they heal (delay) instead of dropping them
+	PartialHeal                                                       int  // percent of heal events that reconnect one host only
+	EngYield                                                          int  // per mille chance that an engine yield point (node.close, node.handleReadIndex, node.handleProposals) parks the task
 	MemberBias                                                        int  // 0 any membership operation, 1 mostly non-voting adds, 2 mostly witness adds
 	ClientRate                                                        int  // relative rate of client actions (10 = as likely as 1/8 of pending work)
 	Pad                                                               int
@@ -198,6 +200,8 @@ func drawCfg(ctx *runner.Ctx) Cfg {
 	c.GroupSplit = p("groupsplit", pick(s, 0, 0, 30))
 	c.MemberBias = p("memberbias", 0)
 	c.HoldCut = p("holdcut", pick(s, 0, 0, 1)) == 1
+	c.PartialHeal = p("partialheal", pick(s, 0, 30, 60))
+	c.EngYield = p("engyield", pick(s, 0, 0, 150, 400))
 	c.Pad = p("pad", pick(s, 0, 0, 40, 300))
 	if c.Hosts < 1 {
 		c.Hosts = 1
@@ -522,7 +526,13 @@ func newSim(ctx *runner.Ctx, tweak func(c *Cfg)) *Sim {
 	s.ex.ParkHook = parkHook
 	transport.VerifHooks.SendBatch = s.hookSendBatch
 	transport.VerifHooks.Async = s.hookAsync
-	dragonboat.VerifYieldHook = func(point string) { s.ex.Yield("sm."+point, 0) }
+	dragonboat.VerifYieldHook = func(point string) {
+		if point == "node.ApplyUpdate" {
+			s.ex.Yield("sm."+point, 0)
+		} else {
+			s.ex.Yield("eng."+point, 0)
+		}
+	}
 	s.net = newNet(s, s.cfg.Hosts)
 	s.initialMembers = map[uint64]dragonboat.Target{}
 	for i := 0; i < s.cfg.Hosts; i++ {
@@ -651,7 +661,15 @@ func (s *Sim) taskPanicked(t *coro.Task) {
 		for _, pr := range panicProperties(msg, origin) {
 			s.ctx.Violate(pr, "panic", "%s @ %s", short, origin)
 		}
-		if t.Name == "boot" && h.crashedBefore {
+		// the start-up of a replica is over when its initial recovery (from the
+		// recorded snapshot and the log) has completed
+		starting := t.Name == "boot"
+		if !starting && h.nh != nil {
+			if r, ok := h.nh.VerifGetReplica(shardID); ok && !r.Initialized() {
+				starting = true
+			}
+		}
+		if starting && h.crashedBefore {
 			for _, pr := range []string{"C04", "C10", "C16"} {
 				s.ctx.Violate(pr, "restart-failed", "replica %d cannot be restarted after a crash: %s @ %s", h.replicaID, short, origin)
 			}
@@ -975,7 +993,18 @@ func (s *Sim) maybeFaults() {
 		}
 	}
 	if s.anyCut() && src.Chance(c.PHeal, 1000) {
-		s.healAll()
+		// mostly everything heals at once; sometimes only one host gets its
+		// links back (the rest of a group split stays cut off)
+		if len(s.hosts) > 2 && src.Chance(c.PartialHeal, 100) {
+			x := src.Intn(len(s.hosts))
+			for y := range s.hosts {
+				s.net.cut[x][y], s.net.cut[y][x] = false, false
+			}
+			s.ctx.Count("fault.heal_one_host", 1)
+			s.ctx.Ev("healhost", uint64(x))
+		} else {
+			s.healAll()
+		}
 	}
 	if src.Chance(c.PCrash, 1000) {
 		ups := s.upHosts()
@@ -1133,6 +1162,9 @@ func (s *Sim) yieldFilter(t *coro.Task, point string, arg uint64) bool {
 	}
 	if len(point) > 3 && point[:3] == "sm." {
 		return s.cfg.SMYield > 0 && s.src.Chance(s.cfg.SMYield, 1000)
+	}
+	if len(point) > 4 && point[:4] == "eng." {
+		return s.cfg.EngYield > 0 && s.src.Chance(s.cfg.EngYield, 1000)
 	}
 	return true
 }
